@@ -2,8 +2,10 @@
 (* Batch validator: full output tensors of real getB/getH calls with tagged sources, judged by the        *)
 (* declarative definition in FieldWrap.tla.                                                               *)
 (* ndjson line: {"tid", "call": e, "form", "outcome", "shape": [..], "den": [..per sensor..],             *)
-(*               "out": [l][m][k][j][3] integers (canonical, pixel axes flattened), "ok_reshape": bool}   *)
-EXTENDS FieldWrap, TLC, Json, IOUtils
+(*               "out": [l][m][k][j][3] integers (canonical, pixel axes flattened), "ok_reshape": bool,   *)
+(*               "stages": {"has", "computed": [s][m][q][3], "reduced", "rotated": [l][m][q][3],          *)
+(*                          "aggregated": [l][m][k][j][3]}  arrays at the hook points of getBH_level2}    *)
+EXTENDS FieldAlgo, TLC, Json, IOUtils
 VARIABLE x
 Trace == ndJsonDeserialize(IOEnv.TRACE_FILE)
 OK == <<"ok", "ok">>
@@ -16,6 +18,13 @@ Verdict(ev) ==
   ELSE IF ~ev.ok_reshape THEN <<"FW", "Shape">>
   ELSE IF e.agg # "none" /\ \E k \in 1..Len(e.sensors) : ev.den[k] # AggDen(e.agg, Len(e.sensors[k].pix)) THEN <<"-", "Den">>
   ELSE IF ev.out # Expected(e) THEN <<"FW", "Tensor">>
+  \* the arrays the code held at its named points (hooks), each step judged from the PREVIOUS logged array (FieldAlgo.tla)
+  ELSE IF ~ev.stages.has THEN OK
+  ELSE IF ev.stages.computed # Computed(e) THEN <<"FW", "StageComputed">>
+  ELSE IF ev.stages.reduced # ReducedFrom(e, ev.stages.computed) THEN <<"FW", "StageReduced">>
+  ELSE IF ev.stages.rotated # RotatedFrom(e, ev.stages.reduced) THEN <<"FW", "StageRotated">>
+  ELSE IF ev.stages.aggregated # AggregatedFrom(e, ev.stages.rotated) THEN <<"FW", "StageAggregated">>
+  ELSE IF ev.out # SumUpFrom(e, ev.stages.aggregated) THEN <<"FW", "StageSumup">>
   ELSE OK
 
 Bad == {i \in 1..Len(Trace) : Verdict(Trace[i])[1] # "ok"}
